@@ -293,6 +293,11 @@ func types() []typeDef {
 						}
 					}
 					_ = ccall.CallConcurrently(p.root, fns...)
+					// the slice is the caller's again once the call has returned (it may have returned
+					// early, on the first error)
+					for i := range fns {
+						fns[i] = quick
+					}
 				},
 				func(g, a int) {
 					// the caller's context is cancelled while the functions are still running;
@@ -309,6 +314,22 @@ func types() []typeDef {
 					}
 					_ = ccall.CallConcurrently(ctx, fns...)
 					cancel()
+					for i := range fns {
+						fns[i] = nil
+					}
+				},
+				func(g, a int) {
+					// a context that is already cancelled: the call may return before any function ran
+					ctx, cancel := context.WithCancel(p.root)
+					cancel()
+					fns := make([]ccall.CallConcurrentlyFunc, 2+a%4)
+					for i := range fns {
+						fns[i] = quick
+					}
+					_ = ccall.CallConcurrently(ctx, fns...)
+					for i := range fns {
+						fns[i] = nil
+					}
 				},
 			}, nil
 		}},
